@@ -22,6 +22,8 @@ pub const KINDS: &[SK] = &[
     SK::BinaryModified,
     SK::BinaryAdded,
     SK::BinaryDeleted,
+    SK::RenamedBinary,
+    SK::CopiedBinary,
     SK::SubmoduleShort,
     SK::EmptyNew,
     SK::EmptyDeleted,
